@@ -238,16 +238,17 @@ pub fn run(r: &mut Report, ctx: &Ctx) {
         );
     }
 
-    if ctx.want("single-huge-update") && !quick {
+    if ctx.want("single-huge-update") {
         r.section(
             "single-huge-update",
             "one update call with a single slice longer than 4 GiB (zeros; the u32::try_from(len) path), then one more byte: processed_len None, finalize TooLargeInput under all options, no panic; and a slice of exactly MAX bytes: processed_len Some(MAX), finalize not TooLargeInput; non-trivial = all",
-            "2 slices x 2 variants",
+            if quick { "1 slice (2^32+16 bytes) x 1 variant" } else { "2 slices x 2 variants" },
             true,
             |s| {
                 let big = vec![0u8; (1usize << 32) + 16];
                 let big = &big;
-                s.acc = par_for(4, 1, |idx, acc| {
+                // quick: the >4 GiB slice on one variant (35 s of hashing); thorough: both slices, two variants
+                s.acc = par_for(if quick { 1 } else { 4 }, 1, |idx, acc| {
                     fn go<V: Variant>(data: &[u8], acc: &mut Acc, key: u64) {
                         acc.evals += 1;
                         acc.transitions += 34;
